@@ -4,7 +4,7 @@
 // every page sealed with CRC-32C computed here by an independent bitwise routine; physical_position = phys(cursor); physical_size =
 // device length; align writes only zeros up to the next multiple of 4).
 //@target src/paged_writer.rs
-//@check write_patch_resume serves=C11,C16,C06,C02,C15 fn=PagedWriter::{write,flush,physical_seek,read_current_page,physical_position,physical_size} note="BOUNDED: read chunk sizes {1024,400,7}; first write of 0..3100 bytes at 14 lengths around page boundaries; seek back to 9 logical offsets; patch of 5 lengths; resume at the remembered end; append 3 lengths; compare whole device image"
+//@check write_patch_resume serves=C11,C16,C06,C02,C15,C01 fn=PagedWriter::{write,flush,physical_seek,read_current_page,physical_position,physical_size} note="BOUNDED: read chunk sizes {1024,400,7}; first write of 0..3100 bytes at 14 lengths around page boundaries; seek back to 9 logical offsets; patch of 5 lengths; resume at the remembered end; append 3 lengths; compare whole device image"
 //@check align_everywhere serves=C11,C16,C02,C15 fn=PagedWriter::align note="BOUNDED: every offset 0..2045 before align, read chunk sizes {1024,7}, 3 bytes appended afterwards; compare whole device image and cursor"
 //@module
     use std::io::Cursor;
